@@ -228,6 +228,16 @@ class Replayer:
                 if ans is not exp:
                     self.fail(k, Failure("C07", "== differs from region equality", expected=exp, got=repr(ans),
                                          a=heap_rec(pre, pre["regs"][aa - 1])["reg"], b=heap_rec(pre, pre["regs"][bb - 1])["reg"]))
+            elif name == "QProbe":
+                aa, bb = args
+                touched |= {aa, bb}
+                for fn in (lambda: regs[bb] in regs[aa], lambda: regs[aa] == regs[bb], lambda: regs[aa] in regs[bb]):
+                    try:
+                        fn()          # the answer is not judged (the model does not interpret it)
+                    except StepTimeout:
+                        raise
+                    except Exception:
+                        pass
             elif name == "QMeasure":
                 (aa,) = args
                 touched.add(aa)
